@@ -556,7 +556,7 @@ def orders_for(rng, names, tier):
 
 
 def generated_directories(rng, tier):
-    ndirs = 100 if tier == "quick" else 500
+    ndirs = 100 if tier == "quick" else 360
     for k in range(ndirs):
         dom = gen_domain(rng, untyped=rng.random() < 0.12)
         n = rng.choice([1, 2, 2, 3, 3, 4])
@@ -809,6 +809,18 @@ class Table:
 
     def __init__(self):
         self.index, self.items = {}, []
+        self.shared, self.lets = {}, []
+
+    def share(self, lit):
+        """a section literal (list of positions) that occurs several times in the group - the combination, its re-parsed
+        export, the other dummy setting share most sections in the same order - crosses once: let s<k> := lit in ..."""
+        if len(lit) < 16:
+            return lit
+        v = self.shared.get(lit)
+        if v is None:
+            v = self.shared[lit] = "s%d" % len(self.lets)
+            self.lets.append("let %s := %s in " % (v, lit))
+        return v
 
     def __call__(self, text):
         i = self.index.get(text)
@@ -822,7 +834,7 @@ class Table:
 
 
 def e_strs(T, items):
-    return clist(T(short(x)) for x in items)
+    return T.share(clist(T(short(x)) for x in items))
 
 
 def e_pairs(T, pairs, acts=False):
@@ -830,7 +842,7 @@ def e_pairs(T, pairs, acts=False):
     for k, v in pairs:
         out.append(T(short(k)))
         out.append(T(short(v) if not acts or k.startswith("dummy-") else short(v, 44, 28)))
-    return clist(out)
+    return T.share(clist(out))
 
 
 def e_domain(T):
@@ -843,7 +855,7 @@ def e_domain(T):
 
 def e_problem(T):
     def render(p):
-        facts = clist("(%s,%s)" % (T(short(k)), e_strs(T, fs)) for k, fs in p["facts"])
+        facts = T.share(clist("(%s,%s)" % (T(short(k)), clist(T(short(x)) for x in fs)) for k, fs in p["facts"]))
         return "(EP t %s %s %s %s %s %s)" % (T(short(p["name"])), e_pairs(T, p["objs"]), facts, e_pairs(T, p["fluents"]),
                                              e_strs(T, p["goals"]), e_strs(T, p["ngoals"]))
     return render
@@ -905,7 +917,7 @@ def group_cases(entries):
             pl = e_problem(T)
             runs = clist("(PR %s %s)" % (order_lit(o), " ".join(prun_fields(T, job, res))) for o, job, res, _ in g["runs"])
             body = "GP %s %s %s" % (clist(obs_lit(g["files"][n], pl) for n in g["names"]), opt_lit(g["expect"], pl), runs)
-        lits.append("(let t := %s in %s)" % (T.lit(), body))
+        lits.append("(let t := %s in %s%s)" % (T.lit(), "".join(T.lets), body))
         units.append(len(g["runs"]))
         cases.extend(c for _, _, _, c in g["runs"])
     return cases, lits, units
@@ -932,6 +944,19 @@ def scase_lit(job, res):
         return "(Returned %s)" % cstr(st[key]) if key in st else "Raised"
     return "(SC %s %s %d %d %s %s %s %s)" % (clist(cstr(t) for t in texts), nums, st["dpre"], st["deff"], cbool(job["dummy"]),
                                              cbool(types_agree(res["dfiles"])), ob("vocab"), ob("rt_vocab"))
+
+
+def pscase_lit(job, res):
+    from . import c05 as C5
+    ps = res["pstructured"]
+    texts = [job["pfiles"][n] for n in res["porder"]]
+    reprs = clist("(%s, %s)" % (chex(float.fromhex(h)), cstr(s_)) for h, s_ in sorted(ps["reprs"].items()))
+
+    def dump(key):
+        return "(Returned %s)" % C5.cpdump(ps[key]) if key in ps else "Raised"
+    return "(PS %s %s %s %s %s %s %s)" % (
+        C5.cvocab(ps["vocab"]), clist(cstr(t) for t in texts), C5.cnums(ps["nums"]), reprs, dump("obs"),
+        "(Returned %s)" % cstr(ps["export"]) if "export" in ps else "Raised", dump("rt"))
 
 
 def nontrivial_maps(dumps, sections):
@@ -1010,7 +1035,7 @@ def run(args):
     # the runs of a directory cross as one literal (per-file dumps once); cases[i] keeps the stand-alone literal of run i
     # for the replay's explanation
     cases, glits, gunits = group_cases(entries)
-    verdicts, info = run_case_shards(PROP, "Corr.C17", glits, shard_size=12, max_bytes=40_000, units=gunits,
+    verdicts, info = run_case_shards(PROP, "Corr.C17", glits, shard_size=14, max_bytes=45_000, units=gunits,
                                      run_fn="run_groups", header_extra="Open Scope N_scope.\n")
     lap("coq_dump_cases")
     timing["dump_case_literal_bytes"] = sum(len(x) for x in glits)
@@ -1038,6 +1063,29 @@ def run(args):
         vc2 = rep.coverage.get("verdict_counts", {})
         rep.coverage["verdict_counts"] = {k: vc1.get(k, 0) + vc2.get(k, 0) for k in set(vc1) | set(vc2)}
         rep.coverage["verdict_counts_structured"] = vc2
+        rep.coverage["distinct_nontrivial"] = dn1 + rep.coverage.get("distinct_nontrivial", 0)
+    # structured correspondence for problems: the model's problem parser reads the agent problem texts, the model combines,
+    # exports (C09's exporter model) and re-parses
+    pcases = []
+    for job, res in zip(jobs, results):
+        if "pstructured" in res and "vocab" in res["pstructured"]:
+            lit = pscase_lit(job, res)
+            nt = nontrivial_maps(res["pfiles"], ("objs", "fluents"))
+            for unit in ("combine", "export", "reparse"):
+                pcases.append({"lit": lit, "input": {"job": job, "part": "structured-problems:" + unit,
+                                                     "implementation": {k: res.get(k) for k in ("pstructured", "porder", "pobs", "prt")}},
+                               "nontrivial": nt and unit == "combine", "witness_of": None})
+    if pcases:
+        lits = [c["lit"] for c in pcases[::3]]
+        hdr = "From Coq Require Import PrimFloat.\nFrom Verif Require Import Spec.Pddl Spec.Problem.\n"
+        pverdicts, pinfo = run_case_shards(PROP, "Corr.C17p", lits, shard_size=30, max_bytes=60_000, units=[3] * len(lits),
+                                           header_extra=hdr)
+        lap("coq_structured_problem_cases")
+        vc1, dn1 = dict(rep.coverage.get("verdict_counts", {})), rep.coverage.get("distinct_nontrivial", 0)
+        decide(rep, PROP, "Corr.C17p", pcases, pverdicts, pinfo, explain_expr="explain %s", header_extra=hdr)
+        vc2 = rep.coverage.get("verdict_counts", {})
+        rep.coverage["verdict_counts"] = {k: vc1.get(k, 0) + vc2.get(k, 0) for k in set(vc1) | set(vc2)}
+        rep.coverage["verdict_counts_structured_problems"] = vc2
         rep.coverage["distinct_nontrivial"] = dn1 + rep.coverage.get("distinct_nontrivial", 0)
     # order independence observed directly: the agreeing directories give the same maps under every order
     order_groups, order_pairs = 0, 0
@@ -1157,6 +1205,7 @@ def run(args):
         kinds[j.get("kind")] = kinds.get(j.get("kind"), 0) + 1
     dist["jobs_by_kind"] = kinds
     dist["structured_cases"] = len(scases) // 3
+    dist["structured_problem_cases"] = len(pcases) // 3
     dist["order_independence_groups"] = order_groups
     dist["order_independence_pairs_compared"] = order_pairs
     cov["input_distribution"] = dist
